@@ -267,6 +267,41 @@ func check(c Case) (vk.Outcome, error) {
 		}
 		out.NonTrivial = n >= 2 && (c.In[0] != c.In[1] || dup)
 	case "Group":
+		{
+			// a classifier with a memory (a quota: the first `budget` items are admitted): every item lands in
+			// exactly one group, under a key the classifier returned for that very item, and no group is empty
+			budget, seen := n/2, 0
+			answers := make([]map[int]bool, n)
+			gq := xslices.Group(in, func(e el) int {
+				seen++
+				k := 0
+				if seen > budget {
+					k = 1
+				}
+				if answers[e.ID] == nil {
+					answers[e.ID] = map[int]bool{}
+				}
+				answers[e.ID][k] = true
+				return k
+			})
+			placed := map[int]int{}
+			for k, grp := range gq {
+				if len(grp) == 0 {
+					return out, viol(c, "Group with a stateful classifier: key %d has an empty group", k)
+				}
+				for _, e := range grp {
+					placed[e.ID]++
+					if !answers[e.ID][k] {
+						return out, viol(c, "Group with a stateful classifier: item %d sits under key %d, which the classifier never returned for it", e.ID, k)
+					}
+				}
+			}
+			for id := 0; id < n; id++ {
+				if placed[id] != 1 {
+					return out, viol(c, "Group with a stateful classifier: item %d appears %d times", id, placed[id])
+				}
+			}
+		}
 		g := xslices.Group(in, func(e el) int { return e.V })
 		cnt := 0
 		for k, grp := range g {
@@ -878,6 +913,17 @@ func genCase(t *rapid.T) Case {
 	maxLen := rapid.SampledFrom([]int{3, 10, 40, 200}).Draw(t, "maxlen")
 	universe := rapid.SampledFrom([]int{1, 2, 3, 7}).Draw(t, "universe")
 	c.In = rapid.SliceOfN(rapid.IntRange(0, universe), 0, maxLen).Draw(t, "in")
+	if rapid.IntRange(0, 9).Draw(t, "big") == 0 {
+		// hundreds of elements over hundreds of distinct values (implementations like to switch strategy with size)
+		big := rapid.IntRange(130, 700).Draw(t, "biglen")
+		wide := rapid.SampledFrom([]int{70, 200, 1000}).Draw(t, "wide")
+		c.In = make([]int, big)
+		x := rapid.IntRange(1, 1<<30).Draw(t, "bigseed")
+		for i := range c.In {
+			x = (x*1103515245 + 12345) & 0x7fffffff
+			c.In[i] = (x >> 8) % wide
+		}
+	}
 	c.Mask = rapid.IntRange(0, 255).Draw(t, "mask")
 	c.Cap = rapid.SampledFrom([]int{0, 0, 1, 5}).Draw(t, "cap")
 	n := len(c.In)
